@@ -343,6 +343,11 @@ func (e *FnExec) doReturn(st *State, r *ssa.Return) {
 	for _, c := range e.con.Ensures {
 		g, err := env.boolExpr(c)
 		if err != nil {
+			if strings.Contains(err.Error(), "no such contracted call") {
+				// the clause speaks about a call the function does not make (any more): it cannot hold
+				e.assert(st, "ensures", False, r.Pos(), c.Text+"  [the function makes no such call]", c.Label)
+				continue
+			}
 			e.errf("%v", err)
 			continue
 		}
@@ -455,6 +460,17 @@ func (e *FnExec) callModifies(c *ssa.CallCommon) map[string]string {
 	if cl, ok := e.P.modClasses[key]; ok {
 		return cl
 	}
+	// not applied yet (first call site sits inside the loop being entered): a frame of only
+	// `nothing` needs no evaluation
+	onlyNothing := true
+	for _, m := range con.Modifies {
+		if strings.TrimSpace(m.Text) != "nothing" {
+			onlyNothing = false
+		}
+	}
+	if onlyNothing {
+		return map[string]string{}
+	}
 	return nil
 }
 
@@ -543,6 +559,24 @@ func (e *FnExec) call(st *State, instr ssa.Instruction, c *ssa.CallCommon, res s
 		}
 		if con == nil {
 			con = e.P.cs.Funcs[key]
+		}
+	}
+	if con == nil && key == "" {
+		// a call through a function-valued struct field: contract keyed field:<Type>.<field>
+		// (an assumption about every function ever stored in that field)
+		if u, ok := c.Value.(*ssa.UnOp); ok && u.Op == token.MUL {
+			if fa, ok := u.X.(*ssa.FieldAddr); ok {
+				if pt, ok := fa.X.Type().Underlying().(*types.Pointer); ok {
+					if nt, ok := types.Unalias(pt.Elem()).(*types.Named); ok && nt.Obj().Pkg() != nil {
+						if stt, ok := nt.Underlying().(*types.Struct); ok {
+							fk := nt.Obj().Pkg().Path() + ".field:" + nt.Obj().Name() + "." + stt.Field(fa.Field).Name()
+							if fc := e.P.cs.Funcs[fk]; fc != nil {
+								key, con, sig = fk, fc, c.Signature()
+							}
+						}
+					}
+				}
+			}
 		}
 	}
 	if con == nil {
@@ -738,6 +772,39 @@ func (e *FnExec) uncontractedCall(st *State, key string, c *ssa.CallCommon, res 
 	}
 	if res != nil {
 		e.setFresh(st, res, "result of "+name)
+	}
+	// a call through a function-valued parameter can be named in the contract: called(f), callresult(f, k)
+	if key == "" {
+		pname := ""
+		switch v := c.Value.(type) {
+		case *ssa.Parameter:
+			pname = v.Name()
+		case *ssa.UnOp:
+			if a, ok := v.X.(*ssa.Alloc); ok {
+				for _, p := range e.fn.Params {
+					if p.Name() == a.Comment {
+						pname = p.Name()
+					}
+				}
+			}
+		}
+		if pname != "" {
+			if id, ok := e.calledCell[pname]; ok {
+				st.cells[id] = True
+			}
+			if res != nil {
+				v := e.vals[res]
+				rs := c.Signature().Results()
+				if v.T != nil && rs.Len() == 1 {
+					e.callResults[pname+"/0"] = specVar{v.T, rs.At(0).Type()}
+				}
+				for k, tv := range v.Tuple {
+					if tv.T != nil && k < rs.Len() {
+						e.callResults[fmt.Sprintf("%s/%d", pname, k)] = specVar{tv.T, rs.At(k).Type()}
+					}
+				}
+			}
+		}
 	}
 }
 
@@ -1261,6 +1328,22 @@ func (e *FnExec) runDefers(st *State, x *ssa.RunDefers) {
 			args = append(args, e.term(st, a))
 		}
 		con.used++
+		// called(name) sees deferred calls too (conditionally deferred: on the paths that deferred them)
+		prev := map[int]*Term{}
+		for _, id := range e.calledCell {
+			prev[id] = st.cells[id]
+		}
+		e.noteCall(st, key, args, sig, c)
+		if guard != True {
+			for id, pv := range prev {
+				if st.cells[id] != pv {
+					if pv == nil {
+						pv = False
+					}
+					st.cells[id] = Or(pv, guard)
+				}
+			}
+		}
 		e.applyContract(st, key, con, sig, c, args, nil, d.Pos(), guard)
 	}
 }
